@@ -103,8 +103,30 @@ def run(res, tier, seed):
     res.evaluations += mux_events
     res.extra.update({"multiplexer_signed_request_cases": mux_events, "multiplexer_genuine_chains_delivered": chains_ok,
                       "multiplexer_cases_with_forged_message": forged_msgs})
+    # the same through the real UdpClientStream built with a signer: every forged kind (incl. a TSIG with
+    # an empty MAC and an error code, which anybody can make) alone and in front of the genuine reply
+    n_udp = 4 if tier == "thorough" else 1
+    t4 = os.path.join(wd, "udptsig.trace.ndjson")
+    vlib.run_driver("drive_c16", ["udp-tsig", "--trace", t4, "--n", str(n_udp), "--seed", str(seed)],
+                    stdout_path=os.path.join(wd, "udptsig.out"))
+    udp_events = udp_genuine_ok = udp_forged = 0
+    with open(t4) as f:
+        for ln in f:
+            e = json.loads(ln)
+            udp_events += 1
+            if e["scenario"] == "single-genuine" and e["msgs"] and e["msgs"][0]["result"] == "ok":
+                udp_genuine_ok += 1
+            if any(m["kind"] != "genuine" and m["result"] != "none" for m in e["msgs"]):
+                udp_forged += 1
+                res.nontrivial.add(e["case"])
+    if udp_genuine_ok == 0 or udp_forged == 0:
+        raise vlib.ToolError(f"vacuous UDP client run: genuine replies delivered={udp_genuine_ok}, forged replies judged={udp_forged}")
+    res.traces += udp_events
+    res.evaluations += udp_events
+    res.extra.update({"udp_client_signed_request_cases": udp_events, "udp_client_genuine_replies_delivered": udp_genuine_ok,
+                      "udp_client_forged_replies_judged": udp_forged})
     lines = (open(t1).read().splitlines(keepends=True) + open(t2).read().splitlines(keepends=True)
-             + open(t3).read().splitlines(keepends=True))
+             + open(t3).read().splitlines(keepends=True) + open(t4).read().splitlines(keepends=True))
     shards = 12 if tier == "thorough" else 6
     files = []
     for i in range(shards):
@@ -134,9 +156,10 @@ def run(res, tier, seed):
     res.extra.update({"mutated_requests_sent": nm, "corpus": n_corpus, "genuine_after_sweep_effective": genuine_eff})
     for m in mism:
         ev = m["event"]
-        if ev.get("ev") == "muxreply":
+        if ev.get("ev") in ("muxreply", "udpreply"):
+            via = "multiplexer" if ev["ev"] == "muxreply" else "udp-client"
             bad = [i + 1 for i, x in enumerate(ev["msgs"]) if x["kind"] != "genuine" and x["result"] == "ok"]
-            cls = "modified-reply-accepted-by-multiplexer" if m.get("forgedAccepted") else "genuine-signed-reply-not-delivered-by-multiplexer"
+            cls = f"modified-reply-accepted-by-{via}" if m.get("forgedAccepted") else f"genuine-signed-reply-not-delivered-by-{via}"
             res.mismatch(cls, {"scenario": ev["scenario"], "op": ev["op"],
                                "kind": ev["msgs"][bad[0] - 1]["kind"] if bad else "genuine",
                                "first_message": bool(bad) and bad[0] == 1}, m)
